@@ -36,6 +36,8 @@ type c07Rec struct {
 	Log     [][]interface{}    `json:"log"`
 	Outcome []interface{}      `json:"outcome"`
 	MaxP    int                `json:"maxp"`
+	Fault   int                `json:"fault"`
+	Nev     int                `json:"nev"`
 }
 
 const c07Prelude = "type T4 struct{ V int }\nvar sink int\n"
@@ -67,6 +69,8 @@ func c07ShowRecovered(v int) string {
 		return `&{string:"three"}`
 	case 4:
 		return "{int:4}"
+	case 9:
+		return `string:"fault"`
 	}
 	return fmt.Sprintf("int:%d", v)
 }
@@ -81,6 +85,16 @@ func c07ShowEscaped(v int) string {
 }
 
 var c07Serial int64
+
+// c07Book renders the bookkeeping observation carried by a model event: ExecFlags.IsDefer and
+// the call depth (the model counts frames from 1 = entry function, like Env.CallDepth).
+func c07Book(e []interface{}, at int) string {
+	if len(e) < at+2 {
+		return ""
+	}
+	isd, _ := e[at].(bool)
+	return fmt.Sprintf(" |isdef:%v depth:%d", isd, num(e[at+1]))
+}
 
 func num(x interface{}) int {
 	switch x := x.(type) {
@@ -124,6 +138,9 @@ func c07Render(rec *c07Rec, raw []byte) *ProgCase {
 			case "deferrec":
 				nontrivial = true
 				fmt.Fprintf(&b, "\tdefer func() {\n\t\tr := recover()\n\t\tev(\"R\", %d, %d, r)\n\t\tif r != nil {\n\t\t\tres = %d\n\t\t}\n\t}()\n", i, pc, op.V)
+			case "deferev":
+				nontrivial = true
+				fmt.Fprintf(&b, "\tdefer ev(\"D\", %d, %d)\n", i, pc)
 			case "rec":
 				fmt.Fprintf(&b, "\tev(\"R\", %d, %d, recover())\n", i, pc)
 			case "panic":
@@ -153,12 +170,14 @@ func c07Render(rec *c07Rec, raw []byte) *ProgCase {
 			continue
 		}
 		switch e[0] {
+		case "D":
+			pc.WantEvents = append(pc.WantEvents, fmt.Sprintf(`string:"D" int:%d int:%d`, num(e[1]), num(e[2]))+c07Book(e, 3))
 		case "L":
-			pc.WantEvents = append(pc.WantEvents, fmt.Sprintf(`string:"L" int:%d int:%d`, num(e[1]), num(e[2])))
+			pc.WantEvents = append(pc.WantEvents, fmt.Sprintf(`string:"L" int:%d int:%d`, num(e[1]), num(e[2]))+c07Book(e, 3))
 		case "R":
-			pc.WantEvents = append(pc.WantEvents, fmt.Sprintf(`string:"R" int:%d int:%d %s`, num(e[1]), num(e[2]), c07ShowRecovered(num(e[3]))))
+			pc.WantEvents = append(pc.WantEvents, fmt.Sprintf(`string:"R" int:%d int:%d %s`, num(e[1]), num(e[2]), c07ShowRecovered(num(e[3])))+c07Book(e, 4))
 		case "ret":
-			pc.WantEvents = append(pc.WantEvents, fmt.Sprintf(`string:"ret" int:%d int:%d`, num(e[1]), num(e[2])))
+			pc.WantEvents = append(pc.WantEvents, fmt.Sprintf(`string:"ret" int:%d int:%d`, num(e[1]), num(e[2]))+c07Book(e, 3))
 		}
 	}
 	if len(rec.Outcome) == 2 && rec.Outcome[0] == "done" {
@@ -178,7 +197,7 @@ func c07Sig(pc *ProgCase, events []string, result string) string {
 	same := len(events) == len(pc.WantEvents)
 	if same {
 		for i := range events {
-			if events[i] != pc.WantEvents[i] {
+			if !eventEq(pc.WantEvents[i], events[i]) {
 				same = false
 			}
 		}
@@ -208,9 +227,9 @@ func c07Sig(pc *ProgCase, events []string, result string) string {
 	return pred + ":" + shape
 }
 
-func c07Cfg(nf, maxOps, maxTotal int, pvals string) string {
-	return fmt.Sprintf("SPECIFICATION Spec\nCONSTANTS\n NF = %d\n MaxOps = %d\n MaxTotal = %d\n PanicVals = %s\n OpKinds <- c_Ops\n EmitOn = TRUE\nINVARIANTS TypeOK PanicModeHasPanic RunnerValid DoneClean Emit\n",
-		nf, maxOps, maxTotal, pvals)
+func c07Cfg(nf, maxOps, maxTotal int, pvals string, maxFault int) string {
+	return fmt.Sprintf("SPECIFICATION Spec\nCONSTANTS\n NF = %d\n MaxOps = %d\n MaxTotal = %d\n PanicVals = %s\n OpKinds <- c_Ops\n MaxFault = %d\n ImplChecksDeferOf = TRUE\n EmitOn = TRUE\nINVARIANTS TypeOK PanicModeHasPanic RunnerValid DoneClean ImplAgrees FaultOnce Emit\n",
+		nf, maxOps, maxTotal, pvals, maxFault)
 }
 
 func c07Collect(c *core.Ctx, o core.TLCOpts, keep func(n int) bool) ([]*ProgCase, error) {
@@ -244,20 +263,20 @@ func c07Collect(c *core.Ctx, o core.TLCOpts, keep func(n int) bool) ([]*ProgCase
 
 func runC07(c *core.Ctx) error {
 	// (M)+(R) bounded-exhaustive: every program with <= MaxTotal operations
-	allOps := `c_Ops == {"L","call","defer","rec","panic","deferrec","deferclo","deferloop","set","ret","spin"}`
-	coreOps := `c_Ops == {"L","call","defer","rec","panic","deferrec"}`
+	allOps := `c_Ops == {"L","call","defer","rec","panic","deferrec","deferclo","deferloop","set","ret","spin","deferev"}`
+	coreOps := `c_Ops == {"L","call","defer","rec","panic","deferrec","deferev"}`
 	stride := uint64(c.Pick(4, 1))
 	seed := uint64(c.Seed)
 	keep := func(n int) bool { return stride == 1 || (uint64(n)*2654435761+seed)%stride == 0 }
 	cases, err := c07Collect(c, core.TLCOpts{Spec: "Defer", MCDefs: coreOps, CfgName: "bfs-core-ops",
-		Cfg: c07Cfg(3, 3, c.Pick(5, 6), "{1,2}"), Timeout: 0}, keep)
+		Cfg: c07Cfg(3, 3, c.Pick(5, 6), "{1,2}", 0), Timeout: 0}, keep)
 	if err != nil {
 		return err
 	}
 	c.Exhaustive = stride == 1
 	// (R) simulation over the full operation alphabet, deeper programs
 	sim, err := c07Collect(c, core.TLCOpts{Spec: "Defer", MCDefs: allOps, CfgName: "sim-all-ops",
-		Cfg:      c07Cfg(4, 4, 10, "{1,2,3,4}"),
+		Cfg:      c07Cfg(4, 4, 10, "{1,2,3,4}", 0),
 		Simulate: true, SimNum: c.Pick(250, 6000), SimDepth: 120, Seed: c.Seed}, nil)
 	if err != nil {
 		return err
@@ -273,7 +292,7 @@ func runC07(c *core.Ctx) error {
 		gf = 1
 	}
 	c.Assume("calls and defers only target higher-numbered functions (termination); recover across compiled/interpreted frames excluded (documented limitation)")
-	return RunProgCases(c, cases, ProgOpts{GateFraction: gf, Sig: c07Sig, Prelude: c07Prelude})
+	return RunProgCases(c, cases, ProgOpts{GateFraction: gf, Sig: c07Sig, Prelude: c07Prelude, Book: true})
 }
 
 func replayC07(c *core.Ctx, raw json.RawMessage) error {
@@ -288,16 +307,16 @@ func replayC07(c *core.Ctx, raw json.RawMessage) error {
 		return err
 	}
 	pc := c07Render(&rec, w.Record)
-	return RunProgCases(c, []*ProgCase{pc}, ProgOpts{GateFraction: 1, Sig: c07Sig, Prelude: c07Prelude})
+	return RunProgCases(c, []*ProgCase{pc}, ProgOpts{GateFraction: 1, Sig: c07Sig, Prelude: c07Prelude, Book: true})
 }
 
 func selfTestC07(c *core.Ctx) error {
 	// a corrupted expectation must be rejected by the replay and by the gate
-	raw := []byte(`{"body":{"0":[{"k":"deferrec","v":7},{"k":"panic","v":1}],"1":[]},"log":[["R",0,1,1]],"outcome":["done",7]}`)
+	raw := []byte(`{"body":{"0":[{"k":"deferrec","v":7},{"k":"panic","v":1}],"1":[]},"log":[["R",0,1,1,true,2]],"outcome":["done",7]}`)
 	var rec c07Rec
 	json.Unmarshal(raw, &rec)
 	good := c07Render(&rec, raw)
-	g := newProgInterp(&ProgOpts{Prelude: c07Prelude})
+	g := newProgInterp(&ProgOpts{Prelude: c07Prelude, Book: true})
 	ev, res := runOnGomacro(g, good)
 	if !progConforms(good, ev, res) {
 		return fmt.Errorf("correct record rejected: %v %s", ev, res)
